@@ -90,9 +90,8 @@ def _oracle(case, est=None):
             elif fe:
                 want = core_f(np.hstack((np.zeros((Y.shape[0], 1)), Y)))[:, 1:]
             else:
-                want = pykoop.combine_episodes(
-                    [(l, core_f(Ye)) for l, Ye in pykoop.split_episodes(Y, episode_feature=True)],
-                    episode_feature=True)
+                want = st.ref_combine(
+                    [(l, core_f(Ye)) for l, Ye in st.ref_split(Y, True)], True)
             if got.shape != want.shape or not np.allclose(got, want, rtol=1e-12, atol=0):
                 return f'{h} differs from the padded/stripped {core_f.__name__}', dict(tag, helper=h)
         L = est.lift(X, episode_feature=call)
